@@ -266,8 +266,10 @@ func (ps *propertyServer) findPrevAndOlderProperties(nodeProperties map[string][
 			if p.deletedTime <= 0 {
 				olderProperties = append(olderProperties, p)
 			}
-			// update the prov property
-			if prevPropertyWithMetadata == nil || p.Metadata.ModRevision > prevPropertyWithMetadata.Metadata.ModRevision {
+			// update the prov property; a tombstone of the same revision is the newer copy
+			// (the replica holding the live one missed the delete)
+			if prevPropertyWithMetadata == nil || p.Metadata.ModRevision > prevPropertyWithMetadata.Metadata.ModRevision ||
+				(p.Metadata.ModRevision == prevPropertyWithMetadata.Metadata.ModRevision && p.deletedTime > 0 && prevPropertyWithMetadata.deletedTime <= 0) {
 				prevPropertyWithMetadata = p
 			}
 		}
